@@ -35,10 +35,11 @@ CLAIMED = {
 
 SEARCH_NOTE = ('Trusted: Coq kernel + vm_compute; translator py2v.py with the bridge lemmas of proofs/SearchBridge.v; numeric '
                'kernels (shares, correlations, required impact, diagnostic tests) enter as oracles -- the theorems hold for '
-               'every behaviour of them; exhaustive_search is re-translated statement by statement on every run '
-               '(gen/Gen_Exhaustive.v, calling the translated generators and the translated HeapDict) and proved equal to the '
-               'hand-written model (proofs/ExhaustiveBridge.v), the property theorems are restated on the translated function; '
-               'greedy_search / geos_within_constraints / search_results are hand-modelled in model/Search.v; all of them are '
+               'every behaviour of them; exhaustive_search and _greedy_search are re-translated statement by statement on every run '
+               '(gen/Gen_Exhaustive.v, gen/Gen_Greedy.v, calling the translated generators, design_within_constraints and HeapDict) '
+               'and proved equal to the hand-written models for every input and fuel (proofs/ExhaustiveBridge.v, proofs/GreedyBridge.v); '
+               'the property theorems are restated on the translated functions; geos_within_constraints / search_results are '
+               'hand-modelled in model/Search.v; all of them are '
                'tied to the code by executed correspondence on generated cases (kernel tables from fresh objects; 40% of the '
                'cases run the search on an object with a history: earlier searches, other parameters first, a second matcher '
                'on the same data object); heapq, itertools.combinations, CPython small-int set order (only under score ties). No axioms.')
